@@ -321,6 +321,25 @@ func cmdCheck(args []string) int {
 		}
 	}
 	items = append(items, kfItems...)
+	// vacuity twins: the negation of a functional obligation must not be provable as well (that would mean the
+	// assumptions at that point are contradictory and everything proved there is void)
+	var twins []OblResult
+	for i := range items {
+		o := items[i].Obl
+		switch o.Kind {
+		case "ensures", "site", "lemma", "inv-preserve", "monitor", "guar":
+			if o.Cover || strings.Contains(o.Name, "@outside:") {
+				continue
+			}
+			t := *o
+			t.Name = o.Name + "@sanity"
+			t.Cond = not(o.Cond)
+			t.Cover = true
+			t.Kind = "sanity"
+			twins = append(twins, OblResult{Obl: &t, VC: items[i].VC})
+		}
+	}
+	items = append(items, twins...)
 	dischargeAll(items, dir, timeout, seed, 16)
 	// second chance, with little contention and a longer limit, before anything is reported as not discharged
 	var retry []OblResult
